@@ -1361,8 +1361,11 @@ func genRejected(rng *rand.Rand) c08Prog {
 		a := args[rng.Intn(len(args))]
 		v := vars[rng.Intn(len(vars))]
 		k := rng.Intn(24)
-		if k < 9 {
-			kinds |= 1
+		if k == 23 && rng.Intn(4) > 0 { // errors in a function signature end the parse before the bodies are looked at: keep them rare
+			k = rng.Intn(3)
+		}
+		if k < 3 || k == 8 {
+			kinds |= 1 // a call in statement position
 		}
 		switch k {
 		case 0, 1:
@@ -1419,7 +1422,7 @@ func genRejected(rng *rand.Rand) c08Prog {
 	ns := 2 + rng.Intn(5)
 	for i := 0; i < ns; i++ {
 		s := stmt()
-		if i == 0 && kinds&1 == 0 && rng.Intn(2) == 0 { // the unknown call is in most programs
+		if i == ns-1 && kinds&1 == 0 && rng.Intn(4) > 0 { // the unknown call in statement position is in most programs
 			s = unkF + args[rng.Intn(len(args))] + "\n" + s
 		}
 		isDecl := strings.HasPrefix(s, "func ") || strings.HasPrefix(s, "on ")
@@ -1656,7 +1659,7 @@ func c08CheckBatch(cfg Config, r *Result, model *Model, progs []c08Prog, inproc 
 }
 
 func runC08(cfg Config, r *Result) {
-	r.Rule = "programs from 11 families biased to expose Go map order (4-8 unused variables per scope; map literals with 4-8 values of which most print; font with 3-8 properties of which several are bad; map literals mixing literal/variable/empty composite types; == on maps incl. an ill-typed value; maps printed/compared/tested/copied/iterated; programs that print/compare/index err, errmsg, pi before any conversion and end with a failing conversion / a success after a failure / an assignment to the globals (with handlers and test in between), each also run alone in a pristine process; arrays (also nested, also of any) holding maps with 4-8 keys deep-copied by array repetition and then printed/ranged/compared/asserted/mutated; 3-6 event handlers with 8 delivered events; mixed valid programs with seeded rand, read, drawing → SVG; token-level mutations of all of these); each program is parsed/formatted/run/rendered 8x in-process and 3x in fresh processes and all observables (parse error text and order, Format(), class, error text, platform trace, SVG+stdout of pkg/cli, name sets) must be identical; non-trivial = order-relevant map with >= 4 entries, or a mixed/malformed program; distinct = distinct program text."
+	r.Rule = "programs from 12 families biased to expose Go map order (4-8 unused variables per scope; map literals with 4-8 values of which most print; font with 3-8 properties of which several are bad; map literals mixing literal/variable/empty composite types; == on maps incl. an ill-typed value; maps printed/compared/tested/copied/iterated; programs that print/compare/index err, errmsg, pi before any conversion and end with a failing conversion / a success after a failure / an assignment to the globals (with handlers and test in between), each also run alone in a pristine process; arrays (also nested, also of any) holding maps with 4-8 keys deep-copied by array repetition and then printed/ranged/compared/asserted/mutated; 3-6 event handlers with 8 delivered events; mixed valid programs with seeded rand, read, drawing → SVG; token-level mutations of all of these; REJECTED programs with 2-6 near-named declared functions / built-ins, 3-5 near-named variables and 2-5 handlers plus 2-6 offending statements — calls of an undeclared function near >= 2 of them in statement position, parenthesised in expressions, conditions and map literals, inside if/for/while/func/handler bodies, undeclared variables read / assigned / indexed, mistyped handlers and types, wrong argument counts and types, redeclarations); each program is parsed/formatted/run/rendered 8x in-process and 3x in fresh processes and all observables (parse error text and order, Format(), class, error text, platform trace, SVG+stdout of pkg/cli, name sets) must be identical; non-trivial = order-relevant map with >= 4 entries, or a mixed/malformed program; distinct = distinct program text."
 	if cfg.Replay != "" {
 		c08Replay(cfg, r)
 		return
